@@ -109,6 +109,56 @@ def plan(target, present, table):
     return order
 
 
+def used_inputs(target, present, table):
+    """The supplied coordinates the derivation actually reads (the leaves of the plan), in first-use order.
+
+    Presence decides, values do not: whatever these coordinates contain (NaN, inf, zero, no elements at all),
+    they are what the result is computed from.  Raises Refuse like plan().
+    """
+    present = set(present)
+    leaves, done, visiting = [], set(), set()
+
+    def need(name):
+        if name in present:
+            if name not in leaves:
+                leaves.append(name)
+            return
+        node = node_of(name)
+        if node in done:
+            return
+        if node not in table or node in visiting:
+            raise Refuse(f'{name} is neither present nor derivable')
+        visiting.add(node)
+        for inp in table[node]:
+            need(inp)
+        visiting.discard(node)
+        done.add(node)
+
+    need(target)
+    return leaves
+
+
+def shallow_inputs(target, table, given=()):
+    """The smallest set of SUBSET coordinates from which `target` follows by the shortest derivation: the
+    inputs of its rule, each replaced by its own inputs while it is neither a SUBSET coordinate nor `given`
+    (origin, auxiliary inputs).  None if some input can be neither supplied nor derived."""
+    out = []
+
+    def expand(name, depth, seen):
+        if name in given:
+            return True
+        if name in SUBSET and depth > 0:
+            if name not in out:
+                out.append(name)
+            return True
+        node = node_of(name)
+        if node not in table or node in seen:
+            return False
+        return all(expand(inp, depth + 1, seen | {node}) for inp in table[node])
+
+    return out if expand(target, 0, frozenset()) else None
+
+
 def decide(origin, target, scatter, present):
     """('ok', nodes) or ('refuse', reason)."""
     try:
@@ -218,6 +268,8 @@ def evaluate(nodes, values, table, mode):
                 E = v['final_energy'] * meV
                 t0 = v['L2'] * np.sqrt(m / (two * E))
                 v[node] = (m * v['L1'] ** 2 / (two * (t - t0) ** 2) - E) / meV
+            # documented: "The result is NaN for unphysical points, that is, where t < t0"
+            v[node] = np.where(t0 > t, LD('nan'), v[node])
             v['_t0_over_t'] = t0 / t
         elif node == 'time_at_sample':
             vel = h / (m * v['wavelength'] * ang)  # m/s
